@@ -7,7 +7,7 @@
            (Transaction.signature / signature_hash; <mode> only matters to the implementation adapter)
      preu ... same for the code before fixes/C01-1 and C01-2 (diagnostics)
      signed <tx>                                            -> digest of every input as Transaction.sign computes it
-     vdig <tx> <pos> <hash_type>                            -> digest Transaction.verify asks for (sign_id = index_n)
+     vdig <tx> <pos> <hash_type>                            -> digest Transaction.verify asks for (diagnostics)
      spec <tx> <i> <hash_type>                              -> consensus preimage + digest *)
 module BZ = Z
 open C01_model
